@@ -734,3 +734,16 @@ Print Assumptions C06_innermost_is_ident_text.
 Print Assumptions C06_unlex_tokens_ordered.
 Print Assumptions C06_text_encloses_example.
 Print Assumptions C06_lexed_tokens_ordered_example.
+
+(* ---------- the names' token types, regenerated from the source (translator T6) ----------
+   Gen/IdentTokens.v is rewritten on every run from parse_ident_token of body_parser.rs.  The model's parser of a name
+   IS the ordered choice over the regenerated list, and the set `ident_types` the derivability relation (GPrim_ident,
+   D_id, method names, parameter names ...) is stated with is the same list: dropping or adding a token type in the
+   source breaks this obligation (and the correspondence then looks for a program on which the property fails). *)
+From GoldV Require Import IdentTokens.
+
+Theorem C06_ident_tokens_match :
+  parse_ident_token = tok_alt gen_ident_tokens /\ ident_types = gen_ident_tokens /\ length gen_ident_tokens = 16%nat.
+Proof. repeat split; reflexivity. Qed.
+
+Print Assumptions C06_ident_tokens_match.
